@@ -841,8 +841,18 @@ def explore(ctx):
                 cases.append([via, "velocity", v])
             for c in range(-2, 19):
                 cases.append([via, "channel", c])
+            # far outside: around every power of two up to 2^16 and their negatives (where bit tests and masks go wrong)
+            for k in range(4, 17):
+                for d in (-1, 0, 1, 5):
+                    for sign in (1, -1):
+                        far = sign * ((1 << k) + d)
+                        if not 0 <= far < 128:
+                            cases.append([via, "velocity", far])
+                        if not 0 <= far < 16:
+                            cases.append([via, "channel", far])
         ctx.bound("velocity_window", [-2, 130])
         ctx.bound("channel_window", [-2, 18])
+        ctx.bound("far_values", "+-(2^k + d), k = 4..16, d in {-1, 0, 1, 5}")
         ctx.serial("bounds", cases)
     if ctx.want("malformed"):
         maxlen = ctx.pick(3, 4)
